@@ -77,6 +77,13 @@ func funcServes(fc *FuncContract, p string) bool {
 			}
 		}
 	}
+	for _, cs := range fc.CallAssert {
+		for _, c := range cs {
+			if hasLabel(c.Labels, p) {
+				return true
+			}
+		}
+	}
 	return false
 }
 
